@@ -273,6 +273,62 @@ def directory_protocol(chk, prog, cfg):
         chk.floor(f"LocatedPath::File construction sites [{cfg}]", n_file, 2)
 
 
+REF_CONV = r"(::|>::)(deref|deref_mut|as_ref|as_mut|as_str|borrow|clone|to_owned|to_string|into|from)$"
+PATH_DERIVATION_OK = [r"str::<impl str>::strip_prefix$", r"str::<impl str>::strip_suffix$", r"Option::<T>::unwrap_or$", REF_CONV]
+
+
+def request_path_derivation(chk, prog, cfg):
+    """R5: the path looked up inside the directory is the request target with the route prefix removed once, and nothing else."""
+    n = 0
+    for path, b in sorted(prog.bodies.items()):
+        if path.startswith("humphrey::route::try_find_path"):
+            continue
+        for blk, t in b.calls_to(r"route::try_find_path$"):
+            n += 1
+            d = core.describe_r(prog, b, t["args"][1])
+            uri = desc_contains(d, lambda y: y[0] == "field" and y[2] == 1 and desc_contains(y[1], lambda z: z[0] == "param" and z[2] == "request"))
+            chk.ob("R5.request_path", path, "try_find_path looks up a value derived from request.uri", uri, f"looks up {core.short(str(d))[:160]}", where=b.where(blk), cfg=cfg)
+            calls = sorted(set(c[1] for c in core.desc_calls(d)))
+            odd = [c for c in calls if not any(core.re.search(rx, c) for rx in PATH_DERIVATION_OK)]
+            chk.ob("R5.request_path", path, "request.uri -> try_find_path passes only through strip_prefix(route).unwrap_or(uri) and reference conversions", not odd,
+                   f"the looked-up path is also transformed by {[core.short(c) for c in odd]}: a file is then not served under its own path "
+                   "(e.g. trim_start_matches removes the route prefix repeatedly, eating a same-named sub-directory)", where=b.where(blk), cfg=cfg)
+            sp = [c for c in core.desc_calls(d) if c[1].endswith("::strip_prefix")]
+            if sp:
+                pre = sp[0][2][1] if len(sp[0][2]) > 1 else None
+                okp = pre is not None and desc_contains(pre, lambda y: y[0] == "param" and y[2] == "route") and \
+                    all(core.re.search(r"strip_suffix$|unwrap_or$", c[1]) or core.re.search(REF_CONV, c[1]) for c in core.desc_calls(pre))
+                chk.ob("R5.request_path", path, "the prefix removed is the matched route without its trailing `*`", okp and len(sp) == 1,
+                       f"{len(sp)} strip_prefix call(s); prefix = {core.short(str(pre))[:120]}", where=b.where(blk), cfg=cfg)
+    chk.floor(f"try_find_path callers [{cfg}]", n, 2 if cfg == "A" else 1)
+    dh = prog.bodies.get("humphrey_server::server::static::directory_handler")
+    if dh is not None:
+        # the server strips the route prefix in place: one remove(0) per pattern character before the first `*`
+        muts = []
+        for blk, t in dh.calls():
+            tys = t.get("arg_tys", [])
+            if tys and tys[0].startswith("&mut std::string::String"):
+                d0 = core.describe(prog, dh, t["args"][0])
+                if desc_contains(d0, lambda y: y[0] == "field" and y[2] == 1 and desc_contains(y[1], lambda z: z[0] == "param" and z[2] == "request")):
+                    muts.append((blk, t))
+        chk.floor("in-place edits of the looked-up path in directory_handler", len(muts), 1)
+        nexts = [blk for blk, t in dh.calls_to(r"Iterator>::next$|Iterator::next$") if desc_contains(core.describe(prog, dh, t["args"][0]), lambda y: y[0] == "param" and y[2] == "matches")]
+        for blk, t in muts:
+            is_rm = t["callee"].endswith("String::remove") and core.describe(prog, dh, t["args"][1]) == ("lit", 0)
+            gs = core.guards_dominating(prog, dh, blk)
+            per_char = any(lab == "Some" and desc_contains(dd, lambda y: y[0] == "call" and y[1].endswith("::chars") and desc_contains(y[2], lambda z: z[0] == "param" and z[2] == "matches")) for s_, lab, dd, info in gs)
+            star = [(s_, lab, info) for s_, lab, dd, info in gs if isinstance(dd, tuple) and dd[0] == "bin" and dd[1] in ("Ne", "Eq") and ("lit", 42) in (dd[2], dd[3])]
+            not_star = any((dd_lab == "true") == (True) for dd_lab in [lab if next(d for s2, l2, d, i2 in gs if s2 == s_)[1] == "Ne" else ("true" if lab == "false" else "false") for s_, lab, info in star])
+            stops = False
+            for s_, lab, info in star:
+                other = [tgt for l2, tgt in info["edges"].items() if l2 != lab]
+                stops = stops or not any(nb in dh.reachable(other) for nb in nexts)
+            chk.ob("R5.request_path", dh.path, "the looked-up path is request.uri with one leading character removed per route character before `*`",
+                   is_rm and per_char and not_star and stops and len(muts) == 1,
+                   f"edit={core.short(t['callee'])} remove(0)={is_rm} per-route-char={per_char} only-before-star={not_star} stops-at-star={stops} edits={len(muts)}",
+                   where=dh.where(blk), cfg=cfg)
+
+
 def run(chk):
     chk.explanation = (
         "Static decision of C06's structural clauses: every file-system call in the handler modules whose path derives from the request target "
@@ -287,3 +343,4 @@ def run(chk):
         content_and_type(chk, prog, cfg)
         mime_table(chk, prog, cfg)
         directory_protocol(chk, prog, cfg)
+        request_path_derivation(chk, prog, cfg)
